@@ -45,6 +45,18 @@ E2EOK(r) ==
       ELSE /\ IsInjective(r.hist_got) /\ ToSet(r.hist_got) \subseteq ToSet(r.hist_sent)   \* nothing duplicated or invented
            /\ Known("CF05a", Len(r.hist_sent) - Len(r.hist_got)))
 
+\* sampled histograms (sequential cycles): the accounting identities that hold with sampling on
+RateMicro(len, ul) == IF ul = len THEN 1000000 ELSE (2 * len * 1000000 + ul) \div (2 * ul)
+SampledOK(r) ==
+  LET cap == r.a[1] IN
+  \A i \in DOMAIN r.cycles :
+    LET c == r.cycles[i] n == Len(c.recorded) m == Len(c.sent) IN
+    /\ c.bad = 0
+    /\ m = (IF n < cap THEN n ELSE cap)                                   \* never more than the reservoir size
+    /\ IsInjective(c.sent) /\ ToSet(c.sent) \subseteq ToSet(c.recorded)   \* only values of this cycle, none twice
+    /\ (n <= cap => ToSet(c.sent) = ToSet(c.recorded))                    \* all of them when they fit
+    /\ (IF n = 0 THEN c.rates = <<>> ELSE c.rates = <<RateMicro(m, n)>>)   \* one message, rate = sent / recorded
+
 TraceNext ==
   /\ l <= Len(Rec)
   /\ CASE Ev = "reset" -> A[1] = (IF Mode = "Aggressive" THEN 1 ELSE 0) /\ A[2] = Cardinality(CKeys) /\ Reset /\ Step
@@ -72,6 +84,7 @@ TraceNext ==
        [] Ev = "flush.end.post"       -> FlushMatches(Rec[l].msgs) /\ FHists /\ Step
        [] Ev = "final"                -> Obs(fpc = "idle" /\ \A u \in Updaters : upc[u] = "idle")
        [] Ev = "e2e"                  -> Obs(E2EOK(Rec[l]))
+       [] Ev = "sampled"              -> Obs(SampledOK(Rec[l]))
        [] OTHER -> FALSE
 
 TraceInit == Init /\ l = 1
